@@ -262,10 +262,20 @@ Print Assumptions C20_spec_ip6_text_parse.
 
 (* ---- calls that do NOT fit (the property promises faithful lines only "whenever it fits") *)
 
-(* whatever a call does, fitting or not: if it returns, the buffer still has its 2048 bytes *)
-Theorem C20_buffer_never_grows : forall os l l', wf l -> run_ops l os = Ok l' -> wf l'.
+(* BOUNDED, for ALL sequences of calls with ALL arguments: from a line inside its buffer (2048 bytes, index <= 2048)
+   every call that returns leaves the line inside its buffer -- the write index never exceeds the buffer *)
+Theorem C20_index_bounded : forall os l l', ins l -> run_ops l os = Ok l' -> ins l'.
 Proof. exact run_ops_keeps. Qed.
-Print Assumptions C20_buffer_never_grows.
+Print Assumptions C20_index_bounded.
+
+(* hence ToString and Write never panic after any sequence of calls that returned *)
+Theorem C20_tostring_total : forall os l l', ins l -> run_ops l os = Ok l' -> to_string l' = Ok (text_of l').
+Proof. exact to_string_total. Qed.
+Print Assumptions C20_tostring_total.
+
+Theorem C20_write_total : forall os l l', ins l -> run_ops l os = Ok l' -> exists t, write_out l' = Ok t.
+Proof. exact write_total. Qed.
+Print Assumptions C20_write_total.
 
 (* appendByte on a full line panics *)
 Theorem C20_nofit_append_byte : forall l b, (BUFSZ <= index l)%nat -> append_byte l b = Panic.
@@ -284,7 +294,7 @@ Theorem C20_tostring_panics_iff : forall l, to_string l = Panic <-> (BUFSZ < ind
 Proof. exact to_string_panics. Qed.
 Print Assumptions C20_tostring_panics_iff.
 
-(* the three outcomes of a non-fitting scalar call, each witnessed (and replayed on the code by corpus/C20) *)
+(* the outcomes of a non-fitting scalar call: panic in appendByte, or a silent cut at byte 2048 (copy, and IP since its repair) *)
 Example C20_nofit_panics : run_op (full_line 2047) (OUint [97] 7) = Panic.
 Proof. exact nofit_panics. Qed.
 Print Assumptions C20_nofit_panics.
@@ -295,44 +305,42 @@ Example C20_nofit_truncates :
 Proof. exact nofit_truncates. Qed.
 Print Assumptions C20_nofit_truncates.
 
-Example C20_nofit_index_past :
+Example C20_nofit_ip_truncates :
   exists l', run_op (full_line 2040) (OIP [97] (Some [10; 0; 0; 1]) [49; 48; 46; 48; 46; 48; 46; 49]) = Ok l' /\
-             (BUFSZ < index l')%nat /\ to_string l' = Panic.
-Proof. exact nofit_index_past. Qed.
-Print Assumptions C20_nofit_index_past.
+             index l' = BUFSZ /\ skipn 2040 (text_of l') = [32; 97; 61; 49; 48; 46; 48; 46] /\
+             to_string l' = Ok (text_of l').
+Proof. exact nofit_ip_truncates. Qed.
+Print Assumptions C20_nofit_ip_truncates.
 
-(* ---------------------------------------------------------------------------------------------
-   The code AS FOUND (/repo 040c128) violated the property in five ways; each was reproduced on
-   the real code, recorded, and repaired by a fix: commit (known_findings.txt "fixed:" lines,
-   FIXLOG.md).  The refutations stay checked on the as-found functions (Model/FastlogAsFound.v). *)
+(* ---- the six witnesses on which the code as found failed (Properties/C20_asfound.v), on the repaired code *)
 
-Theorem C20_asfound_ip6_run2_refuted :
-  exists l name ip, line_ok l /\ bytes_ok ip /\ List.length ip = 16%nat /\
-    fits l (fld name (netip_text ip)) /\
-    is_ok (f_ipslice_af l name (Some ip)) = true /\
-    text_or_nil (f_ipslice_af l name (Some ip)) <> text_of l ++ fld name (netip_text ip).
-Proof. exact asfound_ip6_run2_refuted. Qed.
-Print Assumptions C20_asfound_ip6_run2_refuted.
+Example C20_repaired_ip6_run2 :
+  text_or_nil (f_ipslice (line_at 0) [97] (Some ip_run2)) = [32; 97; 61; 49; 58; 58; 50; 58; 51; 58; 52; 58; 53; 58; 54].  (* " a=1::2:3:4:5:6" *)
+Proof. exact repaired_ip6_run2. Qed.
+Print Assumptions C20_repaired_ip6_run2.
 
-Theorem C20_asfound_ip6_exact_fit_refuted :
-  exists l name ip, line_ok l /\ bytes_ok ip /\ List.length ip = 16%nat /\
-    fits l (fld name (netip_text ip)) /\ f_ipslice_af l name (Some ip) = Panic.
-Proof. exact asfound_ip6_exact_fit_refuted. Qed.
-Print Assumptions C20_asfound_ip6_exact_fit_refuted.
+Example C20_repaired_ip6_exact_fit :
+  is_ok (f_ipslice (line_at 2038) [97] (Some ip_lla)) = true /\
+  List.length (text_or_nil (f_ipslice (line_at 2038) [97] (Some ip_lla))) = BUFSZ.
+Proof. exact repaired_ip6_exact_fit. Qed.
+Print Assumptions C20_repaired_ip6_exact_fit.
 
-Theorem C20_asfound_iparray_ip4_return_refuted :
-  exists l name vs, line_ok l /\ op_fits (index l) (OIPArr name vs) = true /\
-    text_or_nil (f_ip_array_af l name vs) = text_of l ++ [32; 97; 61; 91; 49; 46; 50; 46; 51; 46; 52] /\
-    text_or_nil (f_ip_array_af l name vs) <> text_of l ++ spec_text (OIPArr name vs).
-Proof. exact asfound_iparray_ip4_return_refuted. Qed.
-Print Assumptions C20_asfound_iparray_ip4_return_refuted.
+Example C20_repaired_iparray_ip4 :
+  text_or_nil (f_ip_array (line_at 0) [97] [Some [1; 2; 3; 4]; Some [5; 6; 7; 8]])
+  = text_of (line_at 0) ++ spec_text (OIPArr [97] [Some [1; 2; 3; 4]; Some [5; 6; 7; 8]]).
+Proof. exact repaired_iparray_ip4. Qed.
+Print Assumptions C20_repaired_iparray_ip4.
 
-Theorem C20_asfound_iparray_room_refuted :
-  exists l name vs, line_ok l /\ f_ip_array_af l name vs = Panic.
-Proof. exact asfound_iparray_room_refuted. Qed.
-Print Assumptions C20_asfound_iparray_room_refuted.
+Example C20_repaired_iparray_room : is_ok (f_ip_array (line_at 2012) [97] [Some ip_full]) = true.
+Proof. exact repaired_iparray_room. Qed.
+Print Assumptions C20_repaired_iparray_room.
 
-Theorem C20_asfound_bytearray_negative_bound_refuted :
-  exists l name v, line_ok l /\ f_byte_array_af l name v = Panic.
-Proof. exact asfound_bytearray_negative_bound_refuted. Qed.
-Print Assumptions C20_asfound_bytearray_negative_bound_refuted.
+Example C20_repaired_bytearray_bound : f_byte_array (line_at 2040) [97] [1; 2; 3] = Ok (line_at 2040).
+Proof. exact repaired_bytearray_bound. Qed.
+Print Assumptions C20_repaired_bytearray_bound.
+
+Example C20_repaired_index_past :
+  match f_ip (line_at 2040) [97] (Some [49; 48; 46; 48; 46; 48; 46; 49]) with Ok l => Nat.leb (index l) BUFSZ | _ => false end = true.
+Proof. exact repaired_index_past. Qed.
+Print Assumptions C20_repaired_index_past.
+
